@@ -103,6 +103,29 @@ def workflow_progress(wf: Workflow) -> tuple:
     return (sum(len(p.token_list) for p in wf.ports.values()), sum(1 for st in wf.steps.values() if st.terminated))
 
 
+def stall_report(wf: Workflow, live: list[str], limit: int = 14) -> str:
+    """what every live step of a stalled workflow is waiting for: the tail of each input port's log and what is still queued"""
+    lines = []
+    for name in live:
+        st = wf.steps[name]
+        lines.append(f"{name} [{type(st).__name__}, status {st.status.name}]")
+        for pn, port in st.get_input_ports().items():
+            log = [("TERM:" + t.value.name) if isinstance(t, TerminationToken) else f"{type(t).__name__[0]}:{t.tag}" for t in port.token_list]
+            queued = {c.rsplit("/", 2)[-2] + "/" + c.rsplit("/", 1)[-1]: q.qsize() for c, q in port.queues.items() if c.startswith(name + "/")}
+            lines.append(f"    in {pn}: {len(log)} tokens, tail {log[-limit:]}, unread {queued}")
+        if hasattr(st, "iteration_termination_checklist"):
+            lines.append(f"    checklist {dict((k, sorted(v)) for k, v in st.iteration_termination_checklist.items())}")
+        comb = getattr(st, "combinator", None)
+        if comb is not None:
+            tv = {k: {p: len(v) for p, v in d.items()} for k, d in comb._token_values.items() if any(len(v) for v in d.values())}
+            lines.append(f"    combinator {type(comb).__name__} pending {tv} iteration_map {getattr(comb, 'iteration_map', None)}")
+        for attr in ("token_map", "size_map"):
+            if hasattr(st, attr):
+                m = getattr(st, attr)
+                lines.append(f"    {attr} " + str({k: (len(v) if hasattr(v, '__len__') else getattr(v, 'value', v)) for k, v in m.items()}))
+    return "\n".join(lines)
+
+
 async def run_workflow(wf: Workflow, executor_run, stall_s: float = 180.0, cap_s: float = 1500.0):
     """await `executor_run` (a coroutine running the workflow) under a PROGRESS watchdog: a hang is `stall_s` seconds of wall
     clock without any new token on any port and without any step terminating (so a slow, loaded machine is not a hang).
@@ -119,6 +142,10 @@ async def run_workflow(wf: Workflow, executor_run, stall_s: float = 180.0, cap_s
             last, t_last = sig, now
         if now - t_last > stall_s or now - t0 > cap_s:
             live = sorted(st.name for st in wf.steps.values() if not st.terminated)
+            try:
+                wf._sfv_stall_report = stall_report(wf, live)
+            except Exception as e:  # noqa: BLE001
+                wf._sfv_stall_report = f"(no report: {e!r})"
             run.cancel()
             try:
                 await run
